@@ -14,6 +14,7 @@ from __future__ import annotations
 
 import json
 import random
+import re
 
 from vlib import loader, tlc, walk, tlaval
 
@@ -61,16 +62,13 @@ def random_history(mod, rng, prs, maxc, maxpush, reviews, labels, ext, nsteps):
     ev = []
 
     def post():
+        # CI's whole cache + pending request, and the part of the environment that CI's requests change
         p = impl.project()
-
-        def flags(s):
-            return {l: (l in s) for l in labels}
         ci = dict(p["ci"])
         ci["prs"] = list(ci["prs"])
-        ci["pr"] = [{**x, "lab": flags(x["lab"])} for x in ci["pr"]]
-        return {"ghT": p["ghT"], "npush": p["npush"], "ghHead": list(p["ghHead"]), "ghOpen": list(p["ghOpen"]),
-                "ghRev": list(p["ghRev"]), "ghLab": [flags(s) for s in p["ghLab"]], "ghExt": [list(x) for x in p["ghExt"]],
-                "ghCi": [list(x) for x in p["ghCi"]], "batches": list(p["batches"]), "ci": ci}
+        ci["pr"] = [{**x, "lab": sorted(x["lab"])} for x in ci["pr"]]
+        return {"ghT": p["ghT"], "ghOpen": list(p["ghOpen"]), "ghCi": [list(x) for x in p["ghCi"]],
+                "batches": list(p["batches"]), "ci": ci}
 
     def log(e):
         e["post"] = post()
@@ -153,7 +151,9 @@ def run(ctx):
         configs = [((1,), 2, 1, R2, ["WIP"], SF, 1, K3, True),
                    ((1, 2), 2, 1, R2, ["WIP"], SF, 0, K3, True),
                    ((1,), 2, 1, R4, ["WIP", "prio:high"], SF + ["pending"], 2, K3, False),
-                   ((1, 2), 2, 1, R2, ["WIP"], SF, 1, K3, False)]
+                   ((1,), 2, 1, R2, ["WIP"], SF, 3, K3, False),
+                   ((1, 2), 2, 1, R2, ["WIP"], SF, 1, K3, False),
+                   ((1, 2), 2, 1, ["APPROVED"], [], ["failure"], 2, ["batch", "all"], False)]
     total_edges = total_walks = 0
     reached_two = False
     for i, (prs, maxc, maxpush, reviews, labels, ext, budget, kinds, replay) in enumerate(configs):
@@ -197,7 +197,7 @@ def run(ctx):
         raise RuntimeError("vacuous: no replayed graph contains two merges (C30_OnePerTarget never exercised)")
 
     # ---- (3) B2: random histories of the real classes, validated by TLC -------------------------------------
-    ntr, nsteps, nprs, maxc, maxpush = (150, 70, 2, 2, 2) if ctx.quick else (1500, 110, 3, 3, 3)
+    ntr, nsteps, nprs, maxc, maxpush = (120, 70, 2, 2, 2) if ctx.quick else (1200, 110, 3, 3, 3)
     labels = ["WIP", "stacked PR", "prio:high", "do-not-test"]
     ext = ["success", "failure", "pending"]
     prs = tuple(range(1, nprs + 1))
@@ -215,7 +215,7 @@ def run(ctx):
         raise RuntimeError(f"vacuous random histories: {nmerges} merges, {two} histories with two merges")
     cfg = consts(prs, maxc, maxpush, R4, labels, ext, 10 ** 6)
     (wd / "Trace.cfg").write_text(tlc.mk_cfg(spec="TraceSpec", constants=cfg, invariants=INVS, deadlock=True))
-    tres = tlc.run(wd, "CiMergeTrace", "Trace.cfg", workers=ctx.workers, env={"TRACE_FILE": tf}, timeout=3000)
+    tres = tlc.run(wd, "CiMergeTrace", "Trace.cfg", workers=max(1, min(4, ctx.workers)), env={"TRACE_FILE": tf}, timeout=3000)
     ctx.add_tlc(tres, f"trace validation of {ntr} random histories of the real WatchedBranch/PR ({nprs} PRs, {maxc} commits, {maxpush} target pushes; {nmerges} merges)")
     if not tres.violations and tres.distinct < nev:
         raise RuntimeError(f"trace validation explored {tres.distinct} states for {nev} events")
@@ -235,11 +235,16 @@ def run(ctx):
 
     # ---- (4) bigger spec configurations by simulation (thorough tier only) -------------------------------------
     if not ctx.quick:
-        sim_n, sim_depth, sw = 24000, 120, max(1, min(8, ctx.workers))
+        sim_n, sim_depth, sw = 60000, 120, max(1, min(8, ctx.workers))
         scfg = consts((1, 2, 3), 3, 2, R2, ["WIP", "prio:high"], ext, 8)
         (wd / "Sim.cfg").write_text(tlc.mk_cfg(constants=scfg, invariants=INVS))
         # TLC's num= is per worker
         sres = tlc.run(wd, "CiMerge", "Sim.cfg", workers=sw, simulate=f"num={-(-sim_n // sw)}", depth=sim_depth, seed=ctx.seed, timeout=3000)
+        m = re.search(r"(\d+) states checked, (\d+) traces generated[^\n]*\nThe number of states generated: (\d+)", sres.out)
+        if not m:
+            raise RuntimeError("simulation did not report its counts")
+        sres.generated = sres.distinct = int(m.group(3))     # states visited along the behaviours (not de-duplicated)
+        ctx.cov["simulated_behaviours"] = int(m.group(2))
         ctx.add_tlc(sres, f"simulation of CiMerge, 3 PRs x 3 commits, 2 target pushes, 8 human events: about {sim_n} behaviours of depth <= {sim_depth}")
         for v in sres.violations:
             spec_violation(ctx, v, scfg, "simulation")
